@@ -29,6 +29,8 @@ Nm(prefix, n) == prefix \o ToString(n)
    (the innermost leaf prints v, so a captured text that is reused across iterations or calls shows) *)
 VV == {<<>>, <<49>>, <<50>>}
 Plain == [stmts |-> <<Text("i"), PrintS(NameE("x")), PrintS(NameE("v"))>>, defs |-> <<>>, out |-> [vv \in VV |-> S2B("iq") \o vv], inh |-> FALSE]
+(* a leaf that writes nothing to its enclosing writer (its only output is captured into a variable) *)
+EmptyLeaf == [stmts |-> <<SetCap("z", <<Text("xyz")>>)>>, defs |-> <<>>, out |-> [vv \in VV |-> <<>>], inh |-> FALSE]
 ParentLeaf == [stmts |-> <<BlockS("pz", <<Text("p:"), PrintS(CallE("parent", <<>>)), Text(":p")>>)>>,
                defs |-> <<>>, out |-> [vv \in VV |-> S2B("p:Pq:p")], inh |-> TRUE]
 
@@ -64,6 +66,7 @@ Twice(p) == [stmts |-> p.stmts \o <<Text("+")>> \o p.stmts, defs |-> p.defs, out
 NoMacro(ks) == \A q \in 1..Len(ks) : ks[q] # "macro"
 Pieces == {Build(ks, 1, Plain) : ks \in KindSeqs} \cup {Build(ks, 1, ParentLeaf) : ks \in {q \in KindSeqs : NoMacro(q)}}
           \cup {Twice(Build(ks, 1, Plain)) : ks \in {q \in KindSeqs : Len(q) <= 2}}
+          \cup {Build(ks, 1, EmptyLeaf) : ks \in {q \in KindSeqs : Len(q) <= 3}}
 
 Templates(p) ==
   IF p.inh
